@@ -296,35 +296,46 @@ def wireTtl (r : ERecord) (now : Ms) : Nat :=
 def ERecord.onWire (multicast : Bool) (r : ERecord) (now : Ms) : WRecord :=
   ⟨r.name, r.rtype, wireClass r.rclass r.unique multicast, wireTtl r now, r.rdata.onWire⟩
 
-/-! ### line protocol -/
-def ERData.parse : Tok ERData := do
+/-! ### line protocol
+
+The parsers take the parser of a name token as a parameter: `Tok.name` reads a label list (`61.62`), the text layer's
+`NameText.Tok.nameT` also reads a `str` (`=<hex of its UTF-8>`) and does `write_name`'s strip/split/encode itself. -/
+def ERData.parseN (nm : Tok WName) : Tok ERData := do
   let k ← Tok.next
   match k with
   | "a" => do let a ← Tok.bytes; pure (.addr a)
-  | "p" => do let t ← Tok.name; pure (.ptr t)
+  | "p" => do let t ← nm; pure (.ptr t)
   | "t" => do let t ← Tok.bytes; pure (.txt t)
-  | "s" => do let p ← Tok.nat; let w ← Tok.nat; let q ← Tok.nat; let t ← Tok.name; pure (.srv p w q t)
+  | "s" => do let p ← Tok.nat; let w ← Tok.nat; let q ← Tok.nat; let t ← nm; pure (.srv p w q t)
   | "h" => do let c ← Tok.bytes; let o ← Tok.bytes; pure (.hinfo c o)
-  | "n" => do let n ← Tok.name; let ts ← Tok.natList; pure (.nsec n ts)
+  | "n" => do let n ← nm; let ts ← Tok.natList; pure (.nsec n ts)
   | _ => failure
 
-def EQuestion.parse : Tok EQuestion := do
-  let n ← Tok.name; let t ← Tok.nat; let c ← Tok.nat; let u ← Tok.bool
+def ERData.parse : Tok ERData := ERData.parseN Tok.name
+
+def EQuestion.parseN (nm : Tok WName) : Tok EQuestion := do
+  let n ← nm; let t ← Tok.nat; let c ← Tok.nat; let u ← Tok.bool
   pure ⟨n, t, c, u⟩
 
+def EQuestion.parse : Tok EQuestion := EQuestion.parseN Tok.name
+
 /-- `name type class unique ttl created <rdata>` -/
-def ERecord.parse : Tok ERecord := do
-  let n ← Tok.name; let t ← Tok.nat; let c ← Tok.nat; let u ← Tok.bool; let ttl ← Tok.nat; let cr ← Tok.int
-  let rd ← ERData.parse
+def ERecord.parseN (nm : Tok WName) : Tok ERecord := do
+  let n ← nm; let t ← Tok.nat; let c ← Tok.nat; let u ← Tok.bool; let ttl ← Tok.nat; let cr ← Tok.int
+  let rd ← ERData.parseN nm
   pure ⟨n, t, c, u, ttl, cr, rd⟩
 
+def ERecord.parse : Tok ERecord := ERecord.parseN Tok.name
+
 /-- `flags id multicast nq q.. na (rec now).. nau rec.. nad rec..` -/
-def Msg.parse : Tok Msg := do
+def Msg.parseN (nm : Tok WName) : Tok Msg := do
   let flags ← Tok.nat; let id ← Tok.nat; let mc ← Tok.bool
-  let qs ← Tok.list EQuestion.parse
-  let an ← Tok.list (do let r ← ERecord.parse; let now ← Tok.int; pure (r, now))
-  let au ← Tok.list ERecord.parse
-  let ad ← Tok.list ERecord.parse
+  let qs ← Tok.list (EQuestion.parseN nm)
+  let an ← Tok.list (do let r ← ERecord.parseN nm; let now ← Tok.int; pure (r, now))
+  let au ← Tok.list (ERecord.parseN nm)
+  let ad ← Tok.list (ERecord.parseN nm)
   pure ⟨flags, id, mc, qs, an, au, ad⟩
+
+def Msg.parse : Tok Msg := Msg.parseN Tok.name
 
 end Zc.Wire.Encode
